@@ -3,7 +3,7 @@
    The kind numbers are fixed; each run_*_case lives in its own *IO.v file. *)
 From Coq Require Import List Arith.
 From M Require Import Sx FlatIO QueueIO MultiIO HsmIO NamingIO BuildIO MarkupIO DiagramIO FeaturesIO
-  TimerIO LockIO AsyncIO AsyncConcIO PickleIO FactoryIO.
+  TimerIO LockIO AsyncIO AsyncConcIO PickleIO FactoryIO HsmQueueIO.
 Import ListNotations.
 
 Definition dispatch (k : nat) (x : sx) : sx :=
@@ -23,5 +23,6 @@ Definition dispatch (k : nat) (x : sx) : sx :=
   | 12 => run_asyncconc_case x
   | 13 => run_pickle_case x
   | 14 => run_factory_case x
+  | 15 => run_hsmq_case x
   | _ => L [N 0]
   end.
